@@ -27,7 +27,10 @@ RULE = ("requests and responses, 1-3 pipelined: start line (9 methods, HTTP/1.0,
         "Idle prefix: the armed parser is polled 0-4 times with nothing buffered and close() is called at any point "
         "of that idle time (as Client.service does while cut off), then 1-3 messages (chunked, content-length, "
         "body-less, close-delimited) arrive cut at line ends, chunk boundaries, random points or every byte; the "
-        "result must equal the one-shot parse after the same prefix.  "
+        "result must equal the one-shot parse after the same prefix.  Re-pointed parser: one parser object reused "
+        "across messages and across receive buffers through makeParser(msg=buffer) / reinit(msg=buffer), the new "
+        "buffer empty, partly or fully filled at the call and the rest arriving afterwards whole, in pieces or byte "
+        "by byte; the result must equal that of the buffer already holding the whole message at the call.  "
         "Non-trivial: >= 3 reads with at "
         "least one cut inside a line terminator, a chunk-size line or a body")
 MODELLED = ["Python generators of parseMessage/parseHead/parseBody (as one explicit stage machine)",
@@ -200,6 +203,8 @@ def idle_ops(case, reads):
 
 
 def run_impl(case):
+    if case["kind"] == "rebind":
+        return K.run_hist(case["who"], case["ops"])
     if case["kind"] == "idle":
         return K.run_hist(case["who"], idle_ops(case, case["reads"]))
     if case["kind"] == "server":
@@ -256,7 +261,30 @@ def oracle_idle(case, obs):
     return None
 
 
+def oracle_rebind(case, obs):
+    # the same messages with every new buffer already holding its whole message at the call
+    whole = K.run_hist(case["who"], case["ops_whole"])
+    a, b = _strip_left_on_error(obs), _strip_left_on_error(whole)
+    if a["err"] != b["err"] or len(a["msgs"]) != len(b["msgs"]):
+        return (f"bytes delivered after makeParser(msg=)/reinit(msg=) give {len(a['msgs'])} message(s), err {a['err']}; the same "
+                f"bytes already in the buffer at the call give {len(b['msgs'])}, err {b['err']}")
+    for i, (x, y) in enumerate(zip(a["msgs"], b["msgs"])):
+        for key in x:
+            if x[key] != y[key]:
+                return f"message {i} attribute {key}: delivered after the call {x[key]!r} vs in the buffer at the call {y[key]!r}"
+    exp = case.get("expect")
+    if exp is not None:
+        if obs["err"] is not None:
+            return f"healthy message on a re-pointed parser rejected: {obs['errtext']}"
+        if [m["body"] for m in obs["msgs"]] != [e["body"] for e in exp]:
+            return (f"{len(obs['msgs'])} message(s) with bodies {[m['body'][:30] for m in obs['msgs']]} parsed, "
+                    f"{len(exp)} sent: {[e['body'][:30] for e in exp]}")
+    return None
+
+
 def oracle(case, obs):
+    if case["kind"] == "rebind":
+        return oracle_rebind(case, obs)
     if case["kind"] == "idle":
         return oracle_idle(case, obs)
     if case["kind"] == "server":
@@ -482,6 +510,26 @@ def directed():
             out.append({"kind": "resp", "reads": [h(x) for x in K.cut(w, cuts)], "close": False})
     out.append({"kind": "req", "reads": [], "close": True})
     out.append({"kind": "resp", "reads": [h(b"")], "close": True})
+    # a parser re-pointed at a new receive buffer through the public API, buffer empty / partly / fully filled at the
+    # call, bytes whole, in pieces, byte by byte (seeded C13-14: an empty buffer was not adopted by makeParser)
+    m1 = {"req": b"POST /a HTTP/1.1\r\nContent-Length: 5\r\n\r\nfirst", "resp": b"HTTP/1.1 200 OK\r\nContent-Length: 5\r\n\r\nfirst"}
+    m2 = {"req": b"POST /b HTTP/1.1\r\nTransfer-Encoding: chunked\r\n\r\n6\r\nsecond\r\n0\r\nT: 2\r\n\r\n",
+          "resp": b"HTTP/1.1 404 Not Found\r\nTransfer-Encoding: chunked\r\n\r\n6\r\nsecond\r\n0\r\nT: 2\r\n\r\n"}
+    for who in ("req", "resp"):
+        a, b = m1[who], m2[who]
+        exp2 = [{"body": h(b"first")}, {"body": h(b"second")}]
+        for via in ("make", "reinit"):
+            whole = [["data", h(a)], ["parse"], ["rebind", via, h(b)], ["parse"]]
+            for k, cuts in ((0, []), (0, [20]), (0, list(range(1, len(b)))), (10, [30]), (len(b), [])):
+                ops = [["data", h(a)], ["parse"], ["rebind", via, h(b[:k])]]
+                rest = b[k:]
+                for frag in (K.cut(rest, [c - k for c in cuts if c > k]) if rest else []):
+                    ops += [["data", h(frag)], ["parse"]]
+                if not rest:
+                    ops.append(["parse"])
+                out.append({"kind": "rebind", "who": who, "ops": ops, "ops_whole": whole, "expect": exp2})
+        out.append({"kind": "rebind", "who": who, "ops": [["rebind", "make", ""], ["data", h(a)], ["parse"]],
+                    "ops_whole": [["rebind", "make", h(a)], ["parse"]], "expect": exp2[:1]})
     # armed parser polled idle, close() during the idle time, then a message in fragments (seeded C13-8 = revert of 0a30e14)
     for who, w in (("resp", b"HTTP/1.1 200 OK\r\nContent-Length: 2\r\n\r\nok"),
                    ("resp", b"HTTP/1.1 200 OK\r\nTransfer-Encoding: chunked\r\n\r\n2\r\nab\r\n3\r\ncde\r\n0\r\n\r\n"),
@@ -595,10 +643,39 @@ def _gen_idle(rng):
             "final_close": until or rng.random() < 0.3, "expect": expects}
 
 
+def _gen_rebind(rng):
+    """one parser object reused across messages AND across receive buffers: before each later message (sometimes the
+    first) the parser is pointed at a fresh buffer with makeParser(msg=buffer) or reinit(msg=buffer); the buffer is
+    empty, partly filled or fully filled at the call, the rest arrives afterwards in any cuts"""
+    who = rng.choice(["req", "resp", "resp"])
+    nmsg = rng.choice([1, 2, 2, 3])
+    ops, ops_whole, expects = [], [], []
+    for n in range(nmsg):
+        w, e = K._gen_one_message(rng, who, n, allow_until=False)
+        expects.append(e)
+        if n > 0 or rng.random() < 0.5:
+            via = rng.choice(["make", "make", "reinit"])
+            k = rng.choice([0, 0, 0, rng.randrange(1, len(w)), len(w)])
+            ops.append(["rebind", via, h(w[:k])])
+            ops_whole.append(["rebind", via, h(w)])
+            rest = w[k:]
+        else:
+            rest = w
+            ops_whole.append(["data", h(w)])
+        if rest:
+            for frag in K.cut(rest, _idle_cuts(rng, rest) if len(rest) > 1 else []):
+                ops += [["data", h(frag)], ["parse"]]
+        else:
+            ops.append(["parse"])
+        ops_whole.append(["parse"])
+    return {"kind": "rebind", "who": who, "ops": ops, "ops_whole": ops_whole, "expect": expects}
+
+
 def generate(rng, tier):
-    n_wf, n_mal, n_srv, n_idle = (450, 250, 200, 250) if tier == "quick" else (4500, 2500, 2000, 2500)
+    n_wf, n_mal, n_srv, n_idle, n_reb = (450, 250, 200, 250, 200) if tier == "quick" else (4500, 2500, 2000, 2500, 2000)
     return ([_gen_wf(rng) for _ in range(n_wf)] + [_gen_mal(rng) for _ in range(n_mal)] +
-            [_gen_server(rng) for _ in range(n_srv)] + [_gen_idle(rng) for _ in range(n_idle)])
+            [_gen_server(rng) for _ in range(n_srv)] + [_gen_idle(rng) for _ in range(n_idle)] +
+            [_gen_rebind(rng) for _ in range(n_reb)])
 
 
 # ----------------------------------------------------------------------------- Gallina
@@ -619,6 +696,9 @@ def coq_omsg(m):
 
 
 def to_coq(case, obs):
+    if case["kind"] == "rebind":
+        t = K.to_coq({"kind": "hist", "who": case["who"], "ops": case["ops"]}, obs)
+        return t.replace("(HttpMsg.KHist ", "(HttpMsg.KIdle ", 1)
     if case["kind"] == "idle":
         t = K.to_coq({"kind": "hist", "who": case["who"], "ops": idle_ops(case, case["reads"])}, obs)
         return t.replace("(HttpMsg.KHist ", "(HttpMsg.KIdle ", 1)
@@ -640,6 +720,8 @@ def _to_coq_msg(case, obs):
 
 
 def nontrivial(case, obs):
+    if case["kind"] == "rebind":
+        return any(o[0] == "rebind" and o[2] == "" for o in case["ops"]) and len(obs.get("msgs", [])) >= 2
     if case["kind"] == "idle":
         return ["close"] in case["prefix"] and len(case["reads"]) >= 2 and len(obs.get("msgs", [])) >= 1
     if case["kind"] == "server":
@@ -661,6 +743,8 @@ def classify(case, obs, why):
 
 
 def shrink(case):
+    if case["kind"] == "rebind":
+        return
     if case["kind"] == "idle":
         r = case["reads"]
         for i in range(len(r) - 1):
@@ -686,7 +770,7 @@ def distribution(cases, obs):
         if isinstance(o, dict) and "calls" in o:
             msgs += len(o["calls"])
         closes += 1 if c.get("close") else 0
-    nreads = sorted(len(c["reads"]) if "reads" in c else len(c["frags"]) for c in cases)
+    nreads = sorted(len(c["reads"]) if "reads" in c else len(c.get("frags", c.get("ops", []))) for c in cases)
     kinds["idle_prefix_with_close"] = sum(1 for c in cases if c["kind"] == "idle" and ["close"] in c["prefix"])
     return {"kinds": kinds, "messages_parsed": msgs, "errored": errs, "closed": closes,
             "reads_median": nreads[len(nreads) // 2], "reads_max": nreads[-1]}
